@@ -439,6 +439,8 @@ pub struct ExistsInfo {
     pub co_cycle_max_len: usize,
     pub closure_cycle: bool,
     pub max_size: usize,
+    /// the goal's top-level equations have no unifier: no assignment at all satisfies the goal
+    pub unsat: bool,
 }
 
 /// For `exists<X..> { body }` (body without further exists): decide the body on every assignment from
@@ -453,14 +455,60 @@ pub fn eval_exists(p: &Prog, g: &Goal, depth: usize, budget_each: u64, cap_assig
     if n == 0 {
         return None;
     }
-    let total = n.checked_pow(vars.len() as u32)?;
-    let mut info = ExistsInfo { vars: vars.clone(), sols: vec![], refuted: vec![], unk: total > cap_assignments, tried: 0, co_cycle_max_len: 0, closure_cycle: false, max_size: 0 };
+    // top-level equations between the unknowns are solved first (most general unifier); only the unknowns they
+    // leave free are enumerated, the others follow from them (`exists<X1, X2, X3> { X1 = X2, X2 = V<X3>, .. }`)
+    let mut mgu: BTreeMap<String, Ty> = BTreeMap::new();
+    let mut unsat = false;
+    {
+        let conj: Vec<&Goal> = match &body {
+            Goal::And(cs) => cs.iter().collect(),
+            g => vec![g],
+        };
+        for c in conj {
+            if let Goal::Eq(a, b) = c {
+                if !unify_ty(a, b, &mut mgu) {
+                    unsat = true;
+                }
+            }
+        }
+    }
+    fn resolve(t: &Ty, m: &BTreeMap<String, Ty>, fuel: usize) -> Ty {
+        match t {
+            Ty::Var(v) => match m.get(v) {
+                Some(x) if fuel > 0 => resolve(x, m, fuel - 1),
+                _ => t.clone(),
+            },
+            Ty::Adt(n, a) => Ty::Adt(n.clone(), a.iter().map(|x| resolve(x, m, fuel)).collect()),
+            Ty::Sk(_) => t.clone(),
+        }
+    }
+    if unsat {
+        // the equations alone have no solution: every assignment is refuted
+        return Some(ExistsInfo { vars: vars.clone(), sols: vec![], refuted: vec![], unk: false, tried: 0, co_cycle_max_len: 0, closure_cycle: false, max_size: 0, unsat: true });
+    }
+    let resolved: Vec<Ty> = vars.iter().map(|v| resolve(&Ty::Var(v.clone()), &mgu, 32)).collect();
+    let mut free: Vec<String> = vec![];
+    for t in &resolved {
+        let mut vs = vec![];
+        t.vars(&mut vs);
+        for v in vs {
+            if !free.contains(&v) {
+                free.push(v);
+            }
+        }
+    }
+    let total = n.checked_pow(free.len() as u32)?;
+    let mut info = ExistsInfo { vars: vars.clone(), sols: vec![], refuted: vec![], unk: total > cap_assignments, tried: 0, co_cycle_max_len: 0, closure_cycle: false, max_size: 0, unsat: false };
     for mut idx in 0..total.min(cap_assignments) {
+        let mut fm = BTreeMap::new();
+        for v in &free {
+            fm.insert(v.clone(), uni[idx % n].clone());
+            idx /= n;
+        }
         let mut m = BTreeMap::new();
         let mut asg = vec![];
-        for v in &vars {
-            let t = uni[idx % n].clone();
-            idx /= n;
+        for (v, rt) in vars.iter().zip(resolved.iter()) {
+            let t = rt.subst(&fm);
             m.insert(v.clone(), t.clone());
             asg.push(t);
         }
